@@ -14,7 +14,7 @@
 (*  LenMismatch(ty, b) : length-consistency rule of C19, stated independently      *)
 EXTENDS Integers, Sequences, FiniteSets, TLC
 
-Min(a, b) == IF a < b THEN a ELSE b
+MinOf(a, b) == IF a < b THEN a ELSE b
 U16(n) == << n \div 256, n % 256 >>
 RdU16(b, i) == b[i] * 256 + b[i+1]            \* big-endian 16-bit at 1-based offset i
 IsOctet(x) == x \in 0..255
@@ -272,7 +272,7 @@ RbByte(buf)   == IF Len(buf) < 1 THEN [x |-> 0, r |-> buf] ELSE [x |-> buf[1], r
 RbU16(buf)    == IF Len(buf) = 0 THEN [x |-> 0, r |-> buf]
                  ELSE IF Len(buf) = 1 THEN [x |-> buf[1], r |-> <<>>]
                  ELSE [x |-> buf[1] * 256 + buf[2], r |-> Drop(buf, 2)]
-RbStr(buf, n) == LET m == Min(n, Len(buf)) IN [x |-> Take(buf, m), r |-> Drop(buf, m)]
+RbStr(buf, n) == LET m == MinOf(n, Len(buf)) IN [x |-> Take(buf, m), r |-> Drop(buf, m)]
 RECURSIVE RbBytes(_,_,_)
 \* pop n single octets (0 when exhausted); returns [xs, r]
 RbBytes(buf, n, acc) == IF n = 0 THEN [xs |-> acc, r |-> buf]
